@@ -508,6 +508,22 @@ func checkC14(c *hx.Ctx) {
 			}
 		}
 	}
+	// ---------- CAS URI length on every batch shape (update-free shapes take another path through the provisional index)
+	for bi, fs := range bases {
+		for _, role := range []string{"core-proof", "prov-index", "prov-proof", "chunk"} {
+			if _, ok := fs.Trees[role]; !ok {
+				continue
+			}
+			for _, d := range []int{0, 1} {
+				n := fs.clone()
+				long := strings.Repeat("v", int(p.MaxCasURILength)+d)
+				retarget(n, role, long)
+				if !must(n, nil, fmt.Sprintf("cas-uri-length-per-shape-%d-vs-%d:%s %v", len(long), p.MaxCasURILength, role, shapes[bi]), d == 0, nil) {
+					return
+				}
+			}
+		}
+	}
 	// ---------- read failures / alternate sources
 	for bi, fs := range bases[:4] {
 		for role := range fs.Trees {
@@ -622,6 +638,12 @@ func checkC14(c *hx.Ctx) {
 			d := arr(obj(fs.Trees["chunk"]), "deltas")[0].(map[string]interface{})
 			d["patches"] = []interface{}{patchJSON(map[string]interface{}{"op": "add", "path": nil, "value": 1.0})}
 		}},
+		{"duplicate-update-suffix-in-provisional-index", func(fs *fileSet) {
+			u := arr(obj(fs.Trees["prov-index"], "operations"), "update")
+			u[1] = ref.CopyTree(u[0])
+			pp := arr(obj(fs.Trees["prov-proof"], "operations"), "update")
+			pp[1] = pp[0]
+		}},
 		{"core-proof-signed-data-garbage", func(fs *fileSet) { arr(obj(fs.Trees["core-proof"], "operations"), "recover")[0] = "a.b.c" }},
 		{"provisional-proof-signed-data-empty", func(fs *fileSet) { arr(obj(fs.Trees["prov-proof"], "operations"), "update")[0] = "" }},
 		{"create-suffix-data-null", func(fs *fileSet) {
@@ -641,6 +663,29 @@ func checkC14(c *hx.Ctx) {
 		n := full.clone()
 		m.f(n)
 		if !must(n, nil, "inconsistent-file-set:"+m.name, false, nil) {
+			return
+		}
+	}
+	// JSON patch operations with null members inside chunk deltas: whether they are admitted is not stated; reading them must
+	// return (operations that pass the success invariants, or an error) and never panic
+	noPanic := []mut{
+		{"chunk-delta-json-patch-null-from", func(fs *fileSet) {
+			d := arr(obj(fs.Trees["chunk"]), "deltas")[0].(map[string]interface{})
+			d["patches"] = []interface{}{patchJSON(map[string]interface{}{"op": "move", "from": nil, "path": "/x"})}
+		}},
+		{"chunk-delta-json-patch-null-op", func(fs *fileSet) {
+			d := arr(obj(fs.Trees["chunk"]), "deltas")[0].(map[string]interface{})
+			d["patches"] = []interface{}{patchJSON(map[string]interface{}{"op": nil, "path": "/x", "value": 1.0})}
+		}},
+		{"chunk-delta-json-patch-null-from-on-copy-after-valid-op", func(fs *fileSet) {
+			d := arr(obj(fs.Trees["chunk"]), "deltas")[1].(map[string]interface{})
+			d["patches"] = []interface{}{patchJSON(map[string]interface{}{"op": "add", "path": "/x", "value": 1.0}, map[string]interface{}{"op": "copy", "from": nil, "path": "/y"})}
+		}},
+	}
+	for _, m := range noPanic {
+		n := full.clone()
+		m.f(n)
+		if !either(n, nil, "null-member-in-json-patch:"+m.name, nil) {
 			return
 		}
 	}
@@ -820,6 +865,8 @@ func checkC14(c *hx.Ctx) {
 	c.Floor("must_true:read-failure-served-by-alternate-1", 4)
 	c.Floor("must_true:cas-uri-length-40-vs-40", 2)
 	c.Floor("must_false:cas-uri-length-41-vs-40", 2)
+	c.Floor("must_false:cas-uri-length-per-shape-41-vs-40", 20)
+	c.Floor("must_true:cas-uri-length-per-shape-40-vs-40", 20)
 }
 
 func hashFiles(m map[string]string) string {
